@@ -230,8 +230,52 @@ def base_depth():
     return d
 
 
+class NonTermination(RuntimeError):
+    """A public call used more than CALL_CPU_LIMIT_S seconds of CPU time (a query needs microseconds to milliseconds)."""
+
+
+CALL_CPU_LIMIT_S = 120.0
+
+
+class cpu_watchdog:
+    """Bounds the CPU time (not wall-clock time: the machine may be busy) of a call on the real code, so that a
+    search that never terminates becomes an observable failure instead of a hung check.  Main thread only; elsewhere
+    it is a no-op."""
+
+    def __init__(self, seconds=CALL_CPU_LIMIT_S):
+        self.seconds = seconds
+        self.armed = False
+
+    def _fire(self, signum, frame):
+        raise NonTermination(f"no result within {self.seconds}s of CPU time")
+
+    def __enter__(self):
+        import signal
+        import threading
+        if threading.current_thread() is threading.main_thread():
+            try:
+                self.old = signal.signal(signal.SIGPROF, self._fire)
+                signal.setitimer(signal.ITIMER_PROF, self.seconds)
+                self.armed = True
+            except (ValueError, OSError):
+                self.armed = False
+        return self
+
+    def __exit__(self, *exc):
+        if self.armed:
+            import signal
+            signal.setitimer(signal.ITIMER_PROF, 0)
+            signal.signal(signal.SIGPROF, self.old)
+        return False
+
+
 def call(bm, a, b, sub, levy):
     """One public call with real times a/sub, b/sub.  Returns (W, U, A) (U/A None when not available)."""
+    with cpu_watchdog():
+        return _call(bm, a, b, sub, levy)
+
+
+def _call(bm, a, b, sub, levy):
     ta, tb = (sub.t(a), sub.t(b)) if isinstance(sub, Cfg) else (a / sub, b / sub)
     if levy in ("none",):
         return bm(ta, tb), None, None
